@@ -196,3 +196,228 @@ _register_base = register
 def register(reg):      # noqa: F811
     _register_base(reg)
     register_props(reg)
+
+
+# ---------------------------------------------------------------------------------------------
+# counting lemmas used by the table dialect
+# ---------------------------------------------------------------------------------------------
+
+def _cnt_mono_base():
+    a = z3.Const('a', BoolArr); t = z3.Int('t')
+    return [t >= 0, cnt_def(a, t)], cnt(a, t) <= cnt(a, t)
+
+
+def _cnt_mono_step():
+    """induction on u >= t: cnt(a,t) <= cnt(a,u) => cnt(a,t) <= cnt(a,u+1)"""
+    a = z3.Const('a', BoolArr); t, u = z3.Ints('t u')
+    return [0 <= t, t <= u, cnt(a, t) <= cnt(a, u), cnt_def(a, u)], cnt(a, t) <= cnt(a, u + 1)
+
+
+def _cnt_subset_base():
+    m, a = z3.Const('m', BoolArr), z3.Const('a', BoolArr)
+    return [cnt_def(m, z3.IntVal(0)), cnt_def(a, z3.IntVal(0))], cnt(m, 0) <= cnt(a, 0)
+
+
+def _cnt_subset_step():
+    """m[i] => a[i] for all i  (instance at j)  and  cnt(m,j) <= cnt(a,j)  =>  cnt(m,j+1) <= cnt(a,j+1)"""
+    m, a = z3.Const('m', BoolArr), z3.Const('a', BoolArr); j = z3.Int('j')
+    return [j >= 0, z3.Implies(m[j], a[j]), cnt(m, j) <= cnt(a, j), cnt_def(m, j), cnt_def(a, j)], cnt(m, j + 1) <= cnt(a, j + 1)
+
+
+def register_cnt(reg):
+    L = lambda *a, **k: reg.add_lemma(Lemma(*a, **k))
+    L('cnt_mono', base=_cnt_mono_base, step=_cnt_mono_step, doc='0 <= t <= u => cnt(a,t) <= cnt(a,u)', properties=('C01', 'C02'))
+    L('cnt_subset', base=_cnt_subset_base, step=_cnt_subset_step,
+      doc='(forall i. m[i] => a[i]) => cnt(m,j) <= cnt(a,j)', properties=('C01', 'C02'))
+
+
+_register_2 = register
+
+
+def register(reg):      # noqa: F811
+    _register_2(reg)
+    register_cnt(reg)
+
+
+def _abbr_len():
+    o = z3.Int('o')
+    return [], z3.Length(abbr(o)) == 3
+
+
+def register_str(reg):
+    reg.add_lemma(Lemma('abbr_len', direct=_abbr_len, doc='every okta abbreviation has three characters', properties=('C01', 'C02')))
+
+
+_register_3 = register
+
+
+def register(reg):      # noqa: F811
+    _register_3(reg)
+    register_str(reg)
+
+
+_D = z3.Range('0', '9')
+_DDD = z3.Concat(_D, _D, _D)
+_ABBR = z3.Union(z3.Re('FEW'), z3.Re('SCT'), z3.Re('BKN'), z3.Re('OVC'))
+_GROUP = z3.Concat(_ABBR, _D, _D, _D)
+
+
+def _abbr_re():
+    o = z3.Int('o')
+    return [o >= 1, o <= 8], z3.InRe(abbr(o), _ABBR)
+
+
+def _concat_re():
+    x, y = z3.String('x'), z3.String('y')
+    return [z3.InRe(x, _ABBR), z3.InRe(y, _DDD)], z3.InRe(z3.Concat(x, y), _GROUP)
+
+
+def _code_grammar():
+    """for okta in 1..8 and a finite base in [0, 1e5): abbr ++ digits is one group (FEW|SCT|BKN|OVC)ddd.
+    Proved from instances of abbr_re, prop.C18.h.three_digits, fmt03.digits and concat_re (all proved in this check)."""
+    from .spec import code_text, reveal_code, abbrF, hcodeF
+    from pyvc.values import SFloat
+    o = z3.Int('o'); b = z3.Real('b')
+    bf = SFloat(b, False)
+    k = hnum(b)
+    x, y = abbrF(o), hcodeF(z3.BoolVal(False), b)
+    hy = [o >= 1, o <= 8, b >= 0, b < 100000,
+          x == abbr(o), y == fmt03(k),                                   # reveal (hcode of a non-NaN base is fmt03(hnum))
+          z3.InRe(abbr(o), _ABBR),                                       # abbr_re at o
+          z3.And(k >= 0, k <= 999),                                      # prop.C18.h.three_digits at b
+          z3.Implies(z3.And(k >= 0, k <= 999), z3.InRe(fmt03(k), _DDD)),  # fmt03.digits at hnum(b)
+          z3.Implies(z3.And(z3.InRe(x, _ABBR), z3.InRe(y, _DDD)), z3.InRe(z3.Concat(x, y), _GROUP))]   # concat_re
+    return hy, z3.InRe(code_text(o, bf), _GROUP)
+
+
+_register_4 = register
+
+
+def register(reg):      # noqa: F811
+    _register_4(reg)
+    L = lambda *a, **k: reg.add_lemma(Lemma(*a, **k))
+    L('abbr_re', direct=_abbr_re, properties=('C01',), doc='okta in 1..8 => abbr(okta) in FEW|SCT|BKN|OVC')
+    L('concat_re', direct=_concat_re, properties=('C01',), doc='x in ABBR, y in ddd => x ++ y in GROUP')
+    L('code_grammar', direct=_code_grammar, properties=('C01',),
+      doc='okta in 1..8, base in [0,1e5) finite => abbr(okta) ++ hcode(base) matches (FEW|SCT|BKN|OVC)ddd')
+
+
+# ---------------------------------------------------------------------------------------------
+# C02: from the message characterisation proved on metar_msg (groups = exactly the rows with `significant and base
+# below the MSA`, in table order; NCD/NSC iff there is none) to the statements about *okta* in the property text.
+# Tables satisfy TI (sorted bases, SigRel).  Universal hypotheses appear as the instances the induction step needs.
+# ---------------------------------------------------------------------------------------------
+RealArr = z3.ArraySort(z3.IntSort(), z3.RealSort())
+
+
+def _T():
+    okta = z3.Const('okta', IntArr); sig = z3.Const('sig', BoolArr); base = z3.Const('base', RealArr)
+    msa = z3.Real('msa'); n = z3.Int('n')
+    below = lambda i: base[i] < msa
+    return okta, sig, base, msa, n, below
+
+
+def _nosig_step():
+    """(forall i < k. not a[i]) => cnt(a, k) == 0"""
+    a = z3.Const('a', BoolArr); j = z3.Int('j')
+    return [j >= 0, cnt(a, j) == 0, z3.Not(a[j]), cnt_def(a, j)], cnt(a, j + 1) == 0
+
+
+def _nosig_base():
+    a = z3.Const('a', BoolArr)
+    return [cnt_def(a, z3.IntVal(0))], cnt(a, 0) == 0
+
+
+def _lowest_step():
+    """i0 = lowest row with okta >= 1 and base below the MSA.  For j < i0: no flag at j and none before."""
+    okta, sig, base, msa, n, below = _T()
+    j, i0 = z3.Ints('j i0')
+    hy = [0 <= j, j < i0, i0 < n, cnt(sig, j) == 0,
+          z3.Not(z3.And(okta[j] >= 1, below(j))),      # i0 is the lowest such row (instance at j)
+          below(i0), base[j] <= base[i0],              # TI.sorted (instance j <= i0)
+          _sig_inst(okta, sig, j), cnt_def(sig, j)]
+    return hy, z3.And(z3.Not(sig[j]), cnt(sig, j + 1) == 0)
+
+
+def _lowest_final():
+    okta, sig, base, msa, n, below = _T()
+    i0 = z3.Int('i0')
+    hy = [0 <= i0, i0 < n, cnt(sig, i0) == 0, okta[i0] >= 1, below(i0), _sig_inst(okta, sig, i0)]
+    return hy, z3.And(sig[i0], below(i0))        # so it is reported, and (step) nothing reported precedes it
+
+
+def _ceiling_step():
+    """i5 = lowest row with okta >= 5 below the MSA.  Rows j < i5 are below the MSA too (sorted), hence okta <= 4,
+    hence at most two flags among them."""
+    okta, sig, base, msa, n, below = _T()
+    j, i5 = z3.Ints('j i5')
+    hy = [0 <= j, j < i5, i5 < n, cnt(sig, j) <= 2,
+          z3.Not(z3.And(okta[j] >= 5, below(j))), below(i5), base[j] <= base[i5],
+          _sig_inst(okta, sig, j), cnt_def(sig, j)]
+    return hy, cnt(sig, j + 1) <= 2
+
+
+def _ceiling_final():
+    okta, sig, base, msa, n, below = _T()
+    i5 = z3.Int('i5')
+    hy = [0 <= i5, i5 < n, cnt(sig, i5) <= 2, cnt(sig, i5) >= 0, okta[i5] >= 5, below(i5), _sig_inst(okta, sig, i5)]
+    return hy, z3.And(sig[i5], below(i5))
+
+
+def _ncd_final():
+    """NCD => no flag anywhere (post) => all counts 0 (prop.C02.nosig) => no row reaches 1 okta"""
+    okta, sig, base, msa, n, below = _T()
+    i = z3.Int('i')
+    return [0 <= i, i < n, cnt(sig, i) == 0, z3.Not(sig[i]), _sig_inst(okta, sig, i)], okta[i] <= 0
+
+
+def _nsc_fwd_step():
+    """nothing reported (no row with sig and below).  R(j): below(j) => cnt(sig, j+1) == 0."""
+    okta, sig, base, msa, n, below = _T()
+    j = z3.Int('j')
+    hy = [0 <= j, j + 1 < n, z3.Implies(below(j), cnt(sig, j + 1) == 0),       # IH
+          base[j] <= base[j + 1],                                             # sorted
+          z3.Not(z3.And(sig[j + 1], below(j + 1))),                           # nothing reported (instance)
+          cnt_def(sig, j + 1)]
+    return hy, z3.Implies(below(j + 1), cnt(sig, j + 2) == 0)
+
+
+def _nsc_fwd_base():
+    okta, sig, base, msa, n, below = _T()
+    return [0 < n, z3.Not(z3.And(sig[0], below(0))), cnt_def(sig, z3.IntVal(0))], z3.Implies(below(0), cnt(sig, 1) == 0)
+
+
+def _nsc_fwd_final():
+    """... hence no row below the MSA reaches 1 okta"""
+    okta, sig, base, msa, n, below = _T()
+    i = z3.Int('i')
+    hy = [0 <= i, i < n, below(i), z3.Not(z3.And(sig[i], below(i))),
+          z3.Implies(i >= 1, z3.Implies(below(i - 1), cnt(sig, i) == 0)), z3.Implies(i >= 1, base[i - 1] <= base[i]),
+          cnt_def(sig, z3.IntVal(0)), _sig_inst(okta, sig, i)]
+    return hy, okta[i] <= 0
+
+
+def _nsc_bwd_final():
+    """if the message were not NSC although a row w at/above the MSA has okta >= 1: no flag anywhere => count 0 at w
+    => w is flagged: contradiction.  (cloud at/above the MSA with nothing reportable below => NSC)"""
+    okta, sig, base, msa, n, below = _T()
+    w = z3.Int('w')
+    return [0 <= w, w < n, okta[w] >= 1, cnt(sig, w) == 0, _sig_inst(okta, sig, w)], sig[w]
+
+
+_register_5 = register
+
+
+def register(reg):      # noqa: F811
+    _register_5(reg)
+    L = lambda *a, **k: reg.add_lemma(Lemma(*a, properties=('C02',), **k))
+    L('prop.C02.nosig', base=_nosig_base, step=_nosig_step, doc='no True below k => cnt(a, k) == 0')
+    L('prop.C02.lowest_first', step=_lowest_step, direct=_lowest_final,
+      doc='the lowest row with okta >= 1 below the MSA is reported and nothing reported precedes it: it is the first group')
+    L('prop.C02.ceiling', step=_ceiling_step, direct=_ceiling_final,
+      doc='the lowest row with okta >= 5 below the MSA is flagged significant, hence among the groups')
+    L('prop.C02.ncd_no_okta', direct=_ncd_final, doc='NCD => no row reaches 1 okta')
+    L('prop.C02.nsc_none_below', base=_nsc_fwd_base, step=_nsc_fwd_step, direct=_nsc_fwd_final,
+      doc='NCD/NSC (nothing reported) => no row below the MSA reaches 1 okta')
+    L('prop.C02.nsc_if_cloud_above', direct=_nsc_bwd_final,
+      doc='a row at/above the MSA with okta >= 1 and nothing flagged => contradiction; hence NSC is returned')
